@@ -80,6 +80,32 @@ Definition ev_htmlEscapeString := Eval vm_compute in
    C "io.WriteString" [R "w"; OTH]; EvReturn].
 Definition ev_default := Eval vm_compute in [ERR].
 
+(* ---- the entry points and the scope stack ---- *)
+(* Renderer.Execute: template looked up; the namespace's autoescape mode, On when unspecified; a scope on the caller's
+   data map, ENTERED (marked, and a fresh frame pushed above it); the template's node walked by a fresh state.
+   Model: [render] ([find_template], [entry_mode], [sc_enter (new_scope id data)], [walk (t_node t)]). *)
+Definition ev_Execute := Eval vm_compute in
+  [EvIf [] [EvReturn] []; EvIf [] [EvReturn] [];
+   C "t.tofu.registry.Template" [R "t.name"]; EvIf [] [EvReturn] [];
+   EvIf [] [] [];
+   C "newScope" [R "obj"]; C "initialScope.enter" [];
+   EvDefer [C "state.errRecover" [OTH]];
+   C "state.walk" [R "tmpl.Node"]; EvReturn].
+(* EvalExpr: a bare state.  Model: [eval_expr]. *)
+Definition ev_EvalExpr := Eval vm_compute in
+  [EvDefer [C "state.errRecover" [OTH]]; C "state.walk" [R "node"]; EvReturn].
+(* scope.go.  Model: [new_scope], [sc_push] (a frame with a fresh map), [sc_pop], [sc_set] (on the deepest frame),
+   [sc_lookup] + [bump_unbound] (deepest frame first; a miss is notified), [sc_alldata] (the frames up to the deepest
+   entered one; none: panic), [sc_enter] (mark the deepest frame, then push). *)
+Definition ev_newScope := Eval vm_compute in [EvReturn].
+Definition ev_scope_push := Eval vm_compute in [A "*s"].
+Definition ev_scope_pop := Eval vm_compute in [A "*s"].
+Definition ev_scope_set := Eval vm_compute in [A "s[].vars[]"].
+Definition ev_scope_lookup := Eval vm_compute in
+  [LOOP "i" "s" [EvIf [] [EvReturn] []]; C "notifyUnbound" [R "k"]; EvReturn].
+Definition ev_scope_alldata := Eval vm_compute in [LOOP "i" "s" [EvIf [] [EvReturn] []]; EvPanic].
+Definition ev_scope_enter := Eval vm_compute in [A "*s[].entered"; C "s.push" []].
+
 (* ---- structure ---- *)
 Definition ev_SoyFileNode := Eval vm_compute in [LOOP "node" "node.Body" [C "s.walk" [R "node"]]].
 Definition ev_TemplateNode := Eval vm_compute in [EvIf [] [A "s.autoescape"] []; C "s.walk" [R "node.Body"]].
@@ -244,7 +270,8 @@ Definition ev_TernNode := Eval vm_compute in
 Definition model_walk_events : list (bstr * list wev) := Eval vm_compute in [
   (b "AddNode", ev_AddNode); (b "AndNode", ev_andor); (b "BoolNode", ev_value); (b "CallNode", ev_CallNode);
   (b "CssNode", ev_CssNode); (b "DataRefNode", ev_DataRefNode); (b "DebuggerNode", ev_DebuggerNode);
-  (b "DivNode", ev_DivNode); (b "ElvisNode", ev_ElvisNode); (b "EqNode", ev_eq); (b "FloatNode", ev_value);
+  (b "DivNode", ev_DivNode); (b "ElvisNode", ev_ElvisNode); (b "EqNode", ev_eq);
+  (b "EvalExpr", ev_EvalExpr); (b "Execute", ev_Execute); (b "FloatNode", ev_value);
   (b "ForNode", ev_ForNode); (b "FunctionNode", ev_FunctionNode); (b "GlobalNode", ev_value); (b "GtNode", ev_cmp);
   (b "GteNode", ev_cmp); (b "HeaderParamNode", ev_HeaderParamNode); (b "IfNode", ev_IfNode); (b "IntNode", ev_value);
   (b "LetContentNode", ev_LetContentNode); (b "LetValueNode", ev_LetValueNode);
@@ -256,7 +283,9 @@ Definition model_walk_events : list (bstr * list wev) := Eval vm_compute in [
   (b "SoyFileNode", ev_SoyFileNode); (b "StringNode", ev_value); (b "SubNode", ev_SubNode);
   (b "SwitchNode", ev_SwitchNode); (b "TemplateNode", ev_TemplateNode); (b "TernNode", ev_TernNode);
   (b "at", ev_at); (b "default", ev_default); (b "eval", ev_eval); (b "evaldef", ev_evaldef);
-  (b "htmlEscapeString", ev_htmlEscapeString); (b "renderBlock", ev_renderBlock); (b "walk", ev_walk)].
+  (b "htmlEscapeString", ev_htmlEscapeString); (b "newScope", ev_newScope); (b "renderBlock", ev_renderBlock);
+  (b "scope_alldata", ev_scope_alldata); (b "scope_enter", ev_scope_enter); (b "scope_lookup", ev_scope_lookup);
+  (b "scope_pop", ev_scope_pop); (b "scope_push", ev_scope_push); (b "scope_set", ev_scope_set); (b "walk", ev_walk)].
 
 (* ------------------------------------------------------------------ *)
 (* one lemma per node type: the events of exec.go are the events of the model *)
@@ -279,6 +308,16 @@ Lemma tie_evaldef : map norm src_walk_evaldef = ev_evaldef. Proof. tie. Qed.
 Lemma tie_renderBlock : map norm src_walk_renderBlock = ev_renderBlock. Proof. tie. Qed.
 Lemma tie_htmlEscapeString : map norm src_walk_htmlEscapeString = ev_htmlEscapeString. Proof. tie. Qed.
 Lemma tie_default : map norm src_walk_default = ev_default. Proof. tie. Qed.
+(* the entry points and the scope stack *)
+Lemma tie_Execute : map norm src_walk_Execute = ev_Execute. Proof. tie. Qed.
+Lemma tie_EvalExpr : map norm src_walk_EvalExpr = ev_EvalExpr. Proof. tie. Qed.
+Lemma tie_newScope : map norm src_walk_newScope = ev_newScope. Proof. tie. Qed.
+Lemma tie_scope_push : map norm src_walk_scope_push = ev_scope_push. Proof. tie. Qed.
+Lemma tie_scope_pop : map norm src_walk_scope_pop = ev_scope_pop. Proof. tie. Qed.
+Lemma tie_scope_set : map norm src_walk_scope_set = ev_scope_set. Proof. tie. Qed.
+Lemma tie_scope_lookup : map norm src_walk_scope_lookup = ev_scope_lookup. Proof. tie. Qed.
+Lemma tie_scope_alldata : map norm src_walk_scope_alldata = ev_scope_alldata. Proof. tie. Qed.
+Lemma tie_scope_enter : map norm src_walk_scope_enter = ev_scope_enter. Proof. tie. Qed.
 (* structure and output *)
 Lemma tie_SoyFileNode : map norm src_walk_SoyFileNode = ev_SoyFileNode. Proof. tie. Qed.
 Lemma tie_TemplateNode : map norm src_walk_TemplateNode = ev_TemplateNode. Proof. tie. Qed.
@@ -326,8 +365,9 @@ Proof. tie. Qed.
 (* ------------------------------------------------------------------ *)
 (* What the walker stores to, and what it asks of the message bundle -- read off the extracted events.
    Every assignment of exec.go's walker whose target is not a local variable is an [EvAssign]; every call that is
-   not a pure builtin is an [EvCall].  So: the walker stores only to the fields of its own state and to the
-   argument / item slices it has just made, and the only things it does with the message bundle it was given
+   not a pure builtin is an [EvCall].  So: the walker stores only to the fields of its own state, to the
+   argument / item slices it has just made and (scope.go) to the scope stack, the map of its deepest frame and that
+   frame's entered flag, and the only things it does with the message bundle it was given
    (s.msgs, an interface value supplied by the caller) are the two getters Message and PluralCase: the bundle, and
    the parts of the message it returns (ranged over, never assigned to), are READ-ONLY to a render.  (C08: "never
    modifies the ... message bundle it is given".) *)
@@ -357,7 +397,8 @@ Definition all_events : list wev := flat_map (fun p : bstr * list wev => snd p) 
 Definition among (allowed : list bstr) (l : list bstr) : bool := forallb (fun x => existsb (bstr_eqb x) allowed) l.
 
 Definition store_targets : list bstr := Eval vm_compute in
-  map b ["s.val"; "s.node"; "s.wr"; "s.autoescape"; "args[]"; "items[]"]%string.
+  map b ["s.val"; "s.node"; "s.wr"; "s.autoescape"; "args[]"; "items[]";
+         "*s"; "s[].vars[]"; "*s[].entered" (* scope.go: the scope stack itself, the deepest frame's map and flag *)]%string.
 Lemma walker_store_targets : among store_targets (flat_map evs_assigns all_events) = true.
 Proof. tie. Qed.
 
